@@ -1,64 +1,158 @@
-import json, gevent
+"""In-process stand-in for a ZooKeeper ensemble + kazoo connection, for the server-set check (C19).
+
+`FakeZk` subclasses KazooClient, so kazoo's real DataWatch / ChildrenWatch recipes (and the
+ServerSet's isinstance check) run on top of it unchanged.  What it represents (trusted base):
+
+* one watched path `base` with flat children; a node is identified by its creation zxid
+  (czxid = mzxid, no setData); deleting the path requires it to have no children (ZooKeeper);
+* one-shot watches: `get`/`exists` on the path leave a data watch, `get_children` a child watch;
+  creating/deleting the path fires its data watches (and, on deletion, its child watches, after
+  them); creating/deleting a child fires the path's child watches;
+* fired watch events are queued in ZooKeeper order in `pending` and are delivered one at a time,
+  oldest first, only when the harness calls `t_deliver()` (kazoo's handler runs watch callbacks
+  sequentially from one queue);
+* reads issued by the watch recipes (`get`/`exists`/`get_children` on the path) are answered
+  at once; a read of a *member* node (`get(base/child)`, issued by the ServerSet's notification
+  worker) is a request in flight: it is *served* (snapshot of the tree taken) when the harness
+  calls `t_serve()` and *returned* to the caller when the harness calls `t_return()`.
+"""
+import json
+
+import gevent
+from gevent.event import Event
 from kazoo.client import KazooClient
 from kazoo.exceptions import NoNodeError
 from kazoo.handlers.gevent import SequentialGeventHandler
 from kazoo.protocol.states import WatchedEvent, EventType, KeeperState, ZnodeStat
 
+
 class FakeZk(KazooClient):
-    def __init__(self):
+    def __init__(self, base='/svc'):
         KazooClient.__init__(self, hosts='x:1', handler=SequentialGeventHandler())
-        self.tree = {}          # path -> (data, version)
-        self.data_watches = {}  # path -> [fn]
-        self.child_watches = {}
-        self._fake_connected = False
+        self.base = base
+        self.parent = None       # creation zxid of the path, None when it does not exist
+        self.kids = {}           # child name -> (data, czxid)
         self.zxid = 0
-    # lifecycle
-    def start(self, timeout=15): self._fake_connected = True
-    def stop(self): self._fake_connected = False
+        self.data_watch = []     # one-shot watchers left by get/exists on the path
+        self.child_watch = []    # one-shot watchers left by get_children on the path
+        self.pending = []        # fired watch events, oldest first: (kind, watcher, event)
+        self.read = None         # the member read in flight, if any
+        self.requested = []      # names of member reads, in request order
+        self._fake_connected = False
+
+    # ------------------------------------------------------------------ lifecycle
+    def start(self, timeout=15):
+        self._fake_connected = True
+
+    def stop(self):
+        self._fake_connected = False
+
     @property
-    def connected(self): return self._fake_connected
-    def add_listener(self, l): pass
-    def remove_listener(self, l): pass
-    def retry(self, func, *a, **k): return func(*a, **k)
-    def _stat(self, path):
-        data, ver = self.tree[path]
-        nch = len(self._children(path))
-        return ZnodeStat(0, self.zxid, 0, 0, ver, 0, 0, 0, len(data), nch, 0)
-    def _children(self, path):
-        pre = path.rstrip('/') + '/'
-        return [p[len(pre):] for p in self.tree if p.startswith(pre) and '/' not in p[len(pre):]]
-    # reads
+    def connected(self):
+        return self._fake_connected
+
+    def add_listener(self, l):
+        pass
+
+    def remove_listener(self, l):
+        pass
+
+    def retry(self, func, *a, **k):
+        return func(*a, **k)
+
+    # ------------------------------------------------------------------ reads
+    def _stat(self):
+        z = self.parent
+        return ZnodeStat(z, z, 0, 0, 0, 0, 0, 0, 0, len(self.kids), z)
+
     def exists(self, path, watch=None):
-        if watch: self.data_watches.setdefault(path, []).append(watch)
-        return self._stat(path) if path in self.tree else None
+        assert path == self.base, path
+        if watch:
+            self.data_watch.append(watch)
+        return self._stat() if self.parent is not None else None
+
     def get(self, path, watch=None):
-        if path not in self.tree: raise NoNodeError()
-        if watch: self.data_watches.setdefault(path, []).append(watch)
-        return self.tree[path][0], self._stat(path)
+        if path == self.base:
+            if self.parent is None:
+                raise NoNodeError()
+            if watch:
+                self.data_watch.append(watch)
+            return b'', self._stat()
+        assert path.startswith(self.base + '/') and watch is None, path
+        assert self.read is None, 'two member reads in flight'
+        name = path[len(self.base) + 1:]
+        r = self.read = {'name': name, 'phase': 'requested', 'gate': Event(), 'data': None}
+        self.requested.append(name)
+        r['gate'].wait()
+        self.read = None
+        if r['data'] is None:
+            raise NoNodeError()
+        z = r['czxid']
+        return r['data'], ZnodeStat(z, z, 0, 0, 0, 0, 0, 0, len(r['data']), 0, z)
+
     def get_children(self, path, watch=None, include_data=False):
-        if path not in self.tree: raise NoNodeError()
-        if watch: self.child_watches.setdefault(path, []).append(watch)
-        return sorted(self._children(path))
-    # mutations (by the test)
-    def _fire(self, table, path, etype):
-        ws = table.pop(path, [])
-        ev = WatchedEvent(etype, KeeperState.CONNECTED, path)
-        for w in ws: gevent.spawn(w, ev)
-    def t_create(self, path, data=b''):
-        assert path not in self.tree
+        assert path == self.base, path
+        if self.parent is None:
+            raise NoNodeError()
+        if watch:
+            self.child_watch.append(watch)
+        return sorted(self.kids)
+
+    # ------------------------------------------------------------------ harness side: the tree
+    def _fire(self, kind, etype):
+        table = self.data_watch if kind == 'data' else self.child_watch
+        ws = list(table)
+        del table[:]
+        ev = WatchedEvent(etype, KeeperState.CONNECTED, self.base)
+        for w in ws:
+            self.pending.append((kind, w, ev))
+
+    def t_create_parent(self):
+        assert self.parent is None
         self.zxid += 1
-        self.tree[path] = (data, 0)
-        self._fire(self.data_watches, path, EventType.CREATED)
-        parent = path.rsplit('/', 1)[0] or '/'
-        self._fire(self.child_watches, parent, EventType.CHILD)
-    def t_delete(self, path):
+        self.parent = self.zxid
+        self._fire('data', EventType.CREATED)
+
+    def t_delete_parent(self):
+        assert self.parent is not None and not self.kids
         self.zxid += 1
-        for p in [p for p in self.tree if p == path or p.startswith(path + '/')]:
-            del self.tree[p]
-            self._fire(self.data_watches, p, EventType.DELETED)
-            self._fire(self.child_watches, p, EventType.DELETED)
-        parent = path.rsplit('/', 1)[0] or '/'
-        self._fire(self.child_watches, parent, EventType.CHILD)
+        self.parent = None
+        self._fire('data', EventType.DELETED)
+        self._fire('child', EventType.DELETED)
+
+    def t_create_child(self, name, data):
+        assert self.parent is not None and name not in self.kids
+        self.zxid += 1
+        self.kids[name] = (data, self.zxid)
+        self._fire('child', EventType.CHILD)
+
+    def t_delete_child(self, name):
+        assert name in self.kids
+        self.zxid += 1
+        del self.kids[name]
+        self._fire('child', EventType.CHILD)
+
+    # ------------------------------------------------------------------ harness side: the schedule
+    def t_deliver(self):
+        """hand the oldest fired watch event to its watcher; returns (kind, greenlet)"""
+        kind, w, ev = self.pending.pop(0)
+        g = gevent.spawn(w, ev)
+        return kind, g
+
+    def t_serve(self):
+        r = self.read
+        assert r is not None and r['phase'] == 'requested'
+        r['phase'] = 'served'
+        if r['name'] in self.kids:
+            r['data'], r['czxid'] = self.kids[r['name']]
+
+    def t_return(self):
+        r = self.read
+        assert r is not None and r['phase'] == 'served'
+        r['phase'] = 'returned'
+        r['gate'].set()
+
 
 def member_data(host, port):
-    return json.dumps({'serviceEndpoint': {'host': host, 'port': port}, 'additionalEndpoints': {}, 'status': 'ALIVE'}).encode()
+    return json.dumps({'serviceEndpoint': {'host': host, 'port': port}, 'additionalEndpoints': {},
+                       'status': 'ALIVE'}).encode()
